@@ -604,7 +604,12 @@ def histories(draw: Any, prop: str, tier: str) -> dict:
                 g.m.add_apply(0, op, ("v", op["vid"]))
             ops.append(op)
         g.bulk = True
-    for _ in range(n):
+    crowd_at = d.int(0, n - 1) if d.pct(4 if prop in ("C18", "C02") else 1) else -1
+    for k_ in range(n):
+        if k_ == crowd_at:
+            # dozens of short-lived child contexts, each publishing something of its own (and so each with
+            # its own resource_added signal), come and go in the middle of the history
+            ops.append({"op": "crowd", "k": d.pick([33, 40, 70])})
         o = g.one(main, allow_par=True)
         if o is not None:
             ops.append(o)
@@ -643,7 +648,7 @@ def exhaustive_cases(prop: str, tier: str, w: int, n: int):
         return
     from harness.engines import reentrant
 
-    for i, case in enumerate(itertools.chain(reentrant.all_cases(), reentrant.chain_cases(), reentrant.retry_cases())):
+    for i, case in enumerate(itertools.chain(reentrant.all_cases(), reentrant.chain_cases(), reentrant.retry_cases(), reentrant.wide_cases())):
         if i % n == w:
             yield case
 
@@ -894,6 +899,14 @@ class Interp:
             await self.do_get(task, op)
         elif kind == "par":
             await self.do_par(task, op)
+        elif kind == "crowd":
+            from asphalt.core import Context
+
+            self.labels.add("crowd-of-contexts")
+            for k in range(op["k"]):
+                async with Context() as c:
+                    c.add_resource(_Unrelated(), f"crowd{k}", types=[_Unrelated])
+            self.trace.append(["crowd", op["k"]])
         else:
             raise HarnessError(f"unknown op {kind}")
 
@@ -964,6 +977,13 @@ class Interp:
         self.check_views("new", idx, False, f"entering context #{idx} (created from #{self.m.ctxs[idx].parent.idx})")  # type: ignore[union-attr]
 
     async def open_stream(self, idx: int) -> None:
+        if idx == 0 and any(o.get("name", "").startswith("bulk") for o in self.case["ops"][:3] if isinstance(o.get("name"), str)):
+            # a subscriber with the default queue size that never reads, subscribed BEFORE everybody else: once its
+            # queue is full it loses events (that is documented) - nobody else does, and publishing goes on
+            cm0 = self.real[idx].resource_added.stream_events()
+            await cm0.__aenter__()
+            self.idle_streams.setdefault(idx, []).append(cm0)
+            self.labels.add("idle-subscriber-with-full-queue")
         cm = self.real[idx].resource_added.stream_events(max_queue_size=100000)
         it = await cm.__aenter__()
         self.streams[idx] = (cm, it)
